@@ -43,7 +43,7 @@ def draw_pair(rng, prev):
 
 class C07(Check):
     prop = "C07"
-    quick_runs = 96
+    quick_runs = 160
     thorough_runs = 3000
     run_wall = 600.0
     rule = ("one run = 1..3 connections of the same Diameter object (client or server role); per connection a history of "
